@@ -770,7 +770,8 @@ func (w *SrvWorld) Run(maxSteps int) string {
 		w.scheduleNext()
 	})
 	reason := w.K.Drive(maxSteps, w.Idle, func() bool { return w.done })
-	if !w.K.Free {
+	if !w.K.Free && reason == "stopped" {
+		// (a run cut short by the step cap has not been torn down: nothing about its end is judged)
 		w.Mon.Final(w.K.Now())
 	}
 	close(w.inspectReq)
